@@ -49,6 +49,19 @@ func zzMachine(rsize, r, n, m, l, o int, ops string) *Machine {
 	return mach
 }
 
+// zzWord: an arbitrary register-sized value with the dynamic type the simulator uses for that size.
+func zzWord(tag string, rsize int) interface{} {
+	switch rsize {
+	case 8:
+		return zzNondetU8(tag)
+	case 16:
+		return zzNondetU16(tag)
+	case 32:
+		return zzNondetU32(tag)
+	}
+	return zzNondetU64(tag)
+}
+
 func zzOpIndex(m *Machine, name string) int {
 	for i, op := range m.Op {
 		if op.Op_get_name() == name {
